@@ -660,6 +660,8 @@ func Structures() []Entry {
 			"b \"n\" {\n  x\n}\n",
 			"b \"n\" {\n  dynamic \"\" {\n  }\n  dynamic {\n  }\n  dynamic \"nope\" {\n    content {\n    }\n  }\n}\n",
 			"b \"n\" {\n  c\n  xa = \n}\n",
+			// values spread over several lines that mention the name their own attribute declares
+			"b \"n\" {\n  count = fn2(\n    2,\n    count.ind\n  )\n  ya = fn2(\n    self.y,\n    2\n  )\n}\nb \"m\" {\n  for_each = {\n    a = each.k\n    b = \"x\"\n  }\n}\n",
 		)
 	}
 
@@ -897,6 +899,21 @@ func Structures() []Entry {
 		"resource \"aws\" \"a\" {\n  conn {\n    dynamic \"hop\" {\n      for_each = []\n      content {\n      }\n    }\n  }\n}\nresource \"zz\" \"u\" {\n  conn {\n    dynamic \"hop\" {\n      for_each = []\n      content {\n      }\n    }\n  }\n}\n",
 		// the shared nested block under the parent that enables dynamic blocks, then under the one that does not
 		"resource \"aws\" \"a\" {\n  setting {\n  }\n}\ndata \"aws\" {\n  setting {\n    dynamic \"rule\" {\n      for_each = []\n      content {\n      }\n    }\n  }\n}\n",
+	)
+
+	// the dependency key label is the SECOND label (its position in a key is 0, its index 1); the first label is
+	// completable too but selects nothing
+	add("dep-label-second", func() *schema.BodySchema {
+		return &schema.BodySchema{Blocks: map[string]*schema.BlockSchema{
+			"unit": {Labels: []*schema.LabelSchema{{Name: "name", Completable: true}, {Name: "kind", IsDepKey: true, Completable: true}},
+				Body: &schema.BodySchema{Attributes: map[string]*schema.AttributeSchema{"st": strAttr(nil)}},
+				DependentBody: map[schema.SchemaKey]*schema.BodySchema{
+					depKey([]schema.LabelDependent{lbl(1, "alpha")}, nil): markerBody("m_alpha", nil),
+					depKey([]schema.LabelDependent{lbl(1, "beta")}, nil):  markerBody("m_beta", nil),
+				}},
+		}}
+	},
+		"unit \"x\" \"\" {\n}\nunit \"\" \"alpha\" {\n  m_alpha = \"v\"\n  \n}\nunit \"y\" \"be\" {\n}\n",
 	)
 
 	// a label value that only occurs in a key which also carries an attribute (no labels-only key beside it)
